@@ -1,9 +1,9 @@
-\* all properties, ghosts in the fingerprint: 3 elements, 1 cursor (both directions)
+\* all properties, ghosts in the fingerprint, nothing printed (the harness substitutes the constants)
 CONSTANTS
   NElem = 3
   MaxBox = 8
   NCur = 1
-  InitIds = {0, 3}
+  InitIds = {0, 1}
   DirIds = {0, 1}
   MaxDepth = 3
   PairMode = 1
@@ -12,7 +12,7 @@ CONSTANTS
 INIT Init
 NEXT Next
 VIEW ViewAll
-CONSTRAINT Bound
+CHECK_DEADLOCK FALSE
 INVARIANT InvSeq
 INVARIANT InvIndex
 INVARIANT InvMono
